@@ -29,13 +29,13 @@ PY
 )
 with=""; without=""
 for n in $names; do
-  cargo test --offline -j 8 "$n" >out/confirm-v$V.demo-with.$n.log 2>&1
+  cargo test --offline -j 8 ${CONFIRM_FEATURES:-} "$n" >out/confirm-v$V.demo-with.$n.log 2>&1
   if grep -q "test result: FAILED" out/confirm-v$V.demo-with.$n.log; then with="$with $n:FAILS"; elif grep -qE "test result: ok\. [1-9]" out/confirm-v$V.demo-with.$n.log; then with="$with $n:passes"; else with="$with $n:??"; fi
 done
 clean
 git apply out/v$V.demo.patch
 for n in $names; do
-  cargo test --offline -j 8 "$n" >out/confirm-v$V.demo-without.$n.log 2>&1
+  cargo test --offline -j 8 ${CONFIRM_FEATURES:-} "$n" >out/confirm-v$V.demo-without.$n.log 2>&1
   if grep -q "test result: FAILED" out/confirm-v$V.demo-without.$n.log; then without="$without $n:FAILS"; elif grep -qE "test result: ok\. [1-9]" out/confirm-v$V.demo-without.$n.log; then without="$without $n:passes"; else without="$without $n:??"; fi
 done
 clean
